@@ -75,6 +75,23 @@ def main():
             thms = core.theorems_of(f"Props_{pid}.v")
         except Exception:  # noqa: BLE001
             thms = []
+    # 3a. support theorems (float64 exactness on the generators' grid): built, and only the standard library's
+    #     real-number axioms may appear under them
+    support = getattr(mod, "SUPPORT_TARGETS", [])
+    support_info = {}
+    for sm in support:
+        ok_s, log_s = core.coq_make([sm])
+        if not ok_s:
+            broken.append({"obligation": f"support theorems {sm} (make)", "detail": log_s[-2000:]})
+            continue
+        sthms, sbad, slog = core.audit_support(sm, core.REALS_AXIOMS)
+        if sbad is None:
+            broken.append({"obligation": f"Print Assumptions audit of {sm}", "detail": slog[-2000:]})
+        elif sbad:
+            broken.append({"obligation": f"{sm}: assumptions outside the real-number axioms of the standard library",
+                           "detail": sbad})
+        else:
+            support_info[sm] = len(sthms)
     # 3b. thorough tier: independent checker
     chk = None
     if tier == "thorough" and ok_props:
@@ -151,10 +168,15 @@ def main():
                        f"&& coqc build/Audit_{pid}.v (Print Assumptions for each theorem)",
         "trusted_base": getattr(mod, "TRUSTED_BASE", []) + [
             "Coq 8.16.1 kernel incl. vm_compute (no native_compute)",
-            "axioms: none (every theorem: Closed under the global context)",
-            "tools/gen_consts.py (translator of tables to Generated.v)",
+            "axioms: none (every property theorem: Closed under the global context)",
+            "tools/gen_consts.py (translator: tables, flag skeletons and array programs -> Generated.v)",
             "harness correspondence check (generators, canonicalisation) and the float64==Q argument on the dyadic grid",
-        ],
+        ] + ([f"support theorems {', '.join(f'{k}.v ({v} theorems)' for k, v in support_info.items())}: float64 arithmetic "
+              "(round-to-nearest-even in FLT(-1074, 53), proved to be the value of Flocq's bit-level b64_plus / b64_minus) is "
+              "EXACT on the generators' grid for the additive intermediates; these theorems (not the property theorems) depend "
+              "on the standard library's real-number axioms: ClassicalDedekindReals.sig_not_dec, "
+              "ClassicalDedekindReals.sig_forall_dec, FunctionalExtensionality.functional_extensionality_dep, "
+              "Classical_Prop.classic"] if support_info else []),
         "theorems": thms,
         "evaluations": res.get("evaluations", 0),
         "distinct_nontrivial": res.get("distinct_nontrivial", 0),
